@@ -35,6 +35,14 @@ HAND = [
     "1 1 ; QH u 0 1 ; N 0 ; N 0 ; N 0 ; RT 1 1 0 99999 ; Q u 0 ; Q u 1 ; Q u 2 ; CY u 0 1 : 1023 1024 5 0 ; CY u 0 1 : 3 2 1 0 ; CY u 0 0",
     # min_slots above the global maximum (quota -= size_unchoked wraps in balance_unchoked)
     "2 2 ; N 0 ; N 0 ; N 0 ; N 1 ; N 1 ; N 1 ; SG 1 1 ; Tm u 0 3 ; GM u 2 ; K u 0 ; Q u 0 ; Q u 1 ; Q u 2 ; Q u 3 ; Q u 4 ; Q u 5 ; TK : 1 2 3 4 5 6 7 8 ; TK : 1 2 3 4 5 6 7 8",
+    # fairness_k_waiters: 1 unchoked + 3 waiters, quota 4 => request 3 = k: one cycle unchokes all three (classes 1,2,0/3)
+    "1 1 ; N 0 ; N 0 ; N 0 ; N 0 ; Q u 0 ; QM u 0 1 ; RT 2 1 0 0 ; RT 3 0 5000 0 ; Q d 3 ; Q u 1 ; Q u 2 ; Q u 3 ; QM u 0 4294967295 ; CY u 0 4 : 9 1023 7 5 0 1",
+    # same with k = request + 1 (quota 3): one waiter stays, which one is decided by the weights
+    "1 1 ; N 0 ; N 0 ; N 0 ; N 0 ; Q u 0 ; QM u 0 1 ; Q u 1 ; Q u 2 ; Q u 3 ; QM u 0 4294967295 ; CY u 0 3 : 9 1023 7 5 0 1",
+    # U >= quota: the request is max_alternate (9 unchoked => 2), 2 waiters fit; the choke pass takes 2 old ones
+    "1 1 ; " + " ; ".join(["N 0"] * 11) + " ; " + " ; ".join("Q u %d" % c for c in range(9)) + " ; QM u 0 9 ; Q u 9 ; Q u 10 ; CY u 0 9 : 1 2 3 4 5 6 7 8 9 10 11 12 13 14 15 16 17 18 19 20 21 22 23 24",
+    # fairness_tick_groups: two groups, no global maximum, every group fits => one tick unchokes all four waiters
+    "2 2 ; SG 1 1 ; N 0 ; N 0 ; N 1 ; N 1 ; QM u 0 0 ; QM u 1 0 ; Q u 0 ; Q u 1 ; Q u 2 ; Q u 3 ; QM u 0 2 ; QM u 1 4 ; TK : 7 8 9 1 5 6 3 3 3 3 3 3",
     # close everything in every state
     "1 1 ; N 0 ; N 0 ; N 0 ; N 0 ; Q u 0 ; Q u 1 ; S u 1 ; Q u 2 ; QM u 0 1 ; Q u 3 ; Q d 0 ; Q d 3 ; X 0 ; X 1 ; X 2 ; X 3",
 ]
@@ -189,6 +197,105 @@ def gen_rotation(r, slots, extra, nticks, side="u"):
     return "1 1 ; " + " ; ".join(ops)
 
 
+def max_alternate(cu):
+    return (cu + 7) // 8 if cu < 31 else (cu + 9) // 10
+
+
+def cycle_request(quota, qmax, cu):
+    """what choke_queue::cycle asks its unchoke pass for in a group without min_slots (coq: ProofsFair2.cycle_request)"""
+    q1 = min(quota, qmax)
+    return min(max(q1 - cu if cu < q1 else 0, max_alternate(cu)), q1)
+
+
+def gen_fit(r, stats):
+    """aimed at fairness_k_waiters / fairness_tick_groups: per group U unchoked and k waiting connections with
+    k in {request-1, request, request+1} (request = cycle_request), every side of the case splits
+    U < quota' / U >= quota' (alternate drives the request, the choke pass runs), the max_alternate steps
+    (U = 0, 1, 8, 9, 30, 31), room exactly enough / one short below max_slots, waiters spread over all four
+    weight classes and over several torrents, one cycle (CY) or one tick without a global maximum (TK) over
+    1-3 groups."""
+    mode = r.choice(["cycle", "cycle", "tick", "tick"])
+    ng = r.choice([1, 1, 2]) if mode == "cycle" else r.choice([1, 2, 2, 3])
+    per = [r.choice([1, 1, 2, 3]) for _ in range(ng)]
+    nt = sum(per)
+    side = r.choice("uuud")
+    ops, tg, t = [], [], 0
+    for g in range(ng):
+        for _ in range(per[g]):
+            tg.append(g)
+            if g:
+                ops.append("SG %d %d" % (t, g))
+            t += 1
+    for g in range(ng):
+        if r.random() < 0.7:
+            ops.append("QH %s %d %d" % (side, g, r.randrange(4)))
+    nconn = 0
+    plan = []
+    for g in range(ng):
+        ts = [x for x in range(nt) if tg[x] == g]
+        capU = 11 * len(ts)
+        U = min(capU, r.choice([0, 0, 1, 2, 3, 7, 8, 9, 12, 16, 24, 30, 31, 33]))
+        cand = [U + 1, U + 2, U + 3, U + 4, U, max(0, U - 1), max(0, U - 3), 1, 0, UNL, UNL]
+        M = r.choice(cand)
+        quota = r.choice(cand) if mode == "cycle" else UNL
+        req = cycle_request(quota, M, U)
+        k = min(4 * len(ts), max(0, req + r.choice([-1, 0, 0, 0, 1, 1, 2])))
+        if k == 0 and r.random() < 0.7:
+            k = 1
+        plan.append((g, ts, U, M, quota, k))
+    for g, ts, U, M, quota, k in plan:
+        un = []
+        for i in range(U):
+            ops.append("N %d" % ts[i % len(ts)])
+            un.append(nconn)
+            nconn += 1
+        for c in un:
+            if side == "d" or r.random() < 0.2:
+                ops.append("RT %d %d %d %d" % (c, r.randrange(2), r.choice(RATES[:10]), r.choice(RATES[:10])))
+            ops.append("Q %s %d" % (side, c))
+        ops.append("QM %s %d %d" % (side, g, U))
+        per_t = {x: 0 for x in ts}
+        for i in range(k):
+            tt = ts[(i + U) % len(ts)]
+            ops.append("N %d" % tt)
+            c = nconn
+            nconn += 1
+            per_t[tt] += 1
+            x = r.random()
+            if x < 0.6:
+                ops.append("RT %d %d %d %d" % (c, r.randrange(2), r.choice([0, 15, 16, 2047, 2048, 2049, 5000, 100000]), r.choice(RATES[:8])))
+            if side == "u" and r.random() < 0.4:
+                ops.append("Q d %d" % c)     # we download from it: weight classes 0 / 3 of the leech heuristics
+            ops.append("Q %s %d" % (side, c))
+        # room below max_slots: exactly enough, or one short, for one torrent of the group
+        if r.random() < 0.35:
+            tt = r.choice(ts)
+            tot = sum(1 for i in range(U) if ts[i % len(ts)] == tt) + per_t[tt]
+            ops.append("TM %s %d %d" % (side, tt, max(0, tot - r.choice([0, 0, 1]))))
+        if r.random() < 0.08:
+            ops.append("Tm %s %d 1" % (side, r.choice(ts)))
+        if r.random() < 0.1 and k:
+            ops.append("S %s %d" % (side, nconn - 1))
+    for g, ts, U, M, quota, k in plan:
+        ops.append("QM %s %d %d" % (side, g, M))
+    rs = lambda n: " ".join(str(r.choice([0, 1, 5, 1023, 1024, 4095, r.randrange(1 << 31)])) for _ in range(n))
+    if mode == "cycle":
+        order = list(plan)
+        r.shuffle(order)
+        for g, ts, U, M, quota, k in order:
+            ops.append("CY %s %d %d : %s" % (side, g, quota, rs(2 * nconn + 8)))
+        stats["CYfit"] = stats.get("CYfit", 0) + len(order)
+    else:
+        if r.random() < 0.15:
+            ops.append("GM %s %d" % (side, r.choice([1, 2, 5, 40])))
+        ops.append("TK : " + rs(4 * nconn + 16))
+        if r.random() < 0.5:
+            ops.append("AD 30000000")
+            ops.append("TK : " + rs(4 * nconn + 16))
+        stats["TKfit"] = stats.get("TKfit", 0) + 1
+    return "%d %d ; %s" % (nt, ng, " ; ".join(ops))
+
+
 def gen(seed, tier):
     r = random.Random(seed)
     stats = {}
@@ -202,6 +309,9 @@ def gen(seed, tier):
             nrot += 1
         cases.append(gen_rotation(r, slots, 2, 12, side="d"))
         nrot += 1
+    n_fit = 400 if tier == "quick" else 3000
+    for _ in range(n_fit):
+        cases.append(gen_fit(r, stats))
     n_struct, n_mal = (1500, 300) if tier == "quick" else (12000, 2500)
     for _ in range(n_struct):
         cases.append(gen_case(r, stats, max_conns=r.choice([4, 8, 12])))
@@ -212,7 +322,7 @@ def gen(seed, tier):
         ex = exhaustive(3) + [c for c in exhaustive(4) if r.random() < 0.25]
         nex = len(ex)
         cases += ex
-    dist = {"corpus": ncorp, "hand": len(HAND), "rotation": nrot, "structured": n_struct, "malformed": n_mal, "exhaustive_small_scope": nex,
+    dist = {"corpus": ncorp, "hand": len(HAND), "rotation": nrot, "fit_k_waiters": n_fit, "structured": n_struct, "malformed": n_mal, "exhaustive_small_scope": nex,
             "op_kinds": dict(sorted(stats.items()))}
     return cases, dist
 
